@@ -3,3 +3,5 @@ import MorfuseModel.Common.Ring
 import MorfuseModel.SafePtr.Model
 import MorfuseModel.SafePtr.Lemmas
 import MorfuseModel.Props.C12
+import MorfuseModel.Dispatch.Model
+import MorfuseModel.Dispatch.Spec
